@@ -22,6 +22,8 @@ def _c19(tier: str) -> list[dict]:
     q = tier == "quick"
     return [
         {"engine": "e2_stop", "label": "direct", "profile": {"mode": "direct"}, "n_runs": 60000 if q else 1500000, "budget_s": 60 if q else 600},
+        # complete enumeration: all histories of length 1..6 over 4 ordered letters x 16 patience configurations x 3 representations
+        {"engine": "e2_stop", "label": "sweep_len6_exhaustive", "profile": {"mode": "sweep"}, "n_runs": 262080, "budget_s": 120 if q else 600, "exact": True},
         {"engine": "e2_stop", "label": "loop", "profile": {"mode": "loop"}, "n_runs": 6000 if q else 120000, "budget_s": 100 if q else 900},
         {"engine": "e2_stop", "label": "real", "profile": {"mode": "real"}, "n_runs": 160 if q else 3000, "budget_s": 60 if q else 600},
     ]
